@@ -285,6 +285,14 @@ func init() {
 	}
 	ops["otl.ll.prop"] = func(f Fields) string {
 		return canonPanic(guard(func() string {
+			if f["st"] != "" {
+				// a list of real subtables: the `ll` field carries their encodings as blobs
+				real, want := otlRealLL(f)
+				if f["ll"] != want || hx(gtab.VerifEncodeLookupList(real)) != f["data"] {
+					return "stale-case"
+				}
+				return "ok"
+			}
 			ll, _ := otlParseLL(f["ll"])
 			b := gtab.VerifEncodeLookupList(ll)
 			if d, ok := f["data"]; ok {
@@ -292,6 +300,52 @@ func init() {
 					return "stale-case"
 				}
 			} else if otlShowBytes(b) != f["sum"] {
+				return "stale-case"
+			}
+			return "ok"
+		}))
+	}
+}
+
+// otlRealLL builds [lookup{ctx, ctx}, lookup{Gsub1_1}] from the context-subtable fields of a case
+// line, and the `ll` field that describes it with the encoded subtables as blobs.
+func otlRealLL(f Fields) (gtab.LookupList, string) {
+	ctx := otlCtxFromFields(f)
+	g := &gtab.Gsub1_1{Cov: coverage.Set{5: true}, Delta: 3}
+	tp := 5
+	if f["st"][0] == 'C' {
+		tp = 6
+	}
+	real := gtab.LookupList{
+		{Meta: &gtab.LookupMetaInfo{LookupType: uint16(tp)}, Subtables: []gtab.Subtable{ctx, ctx}},
+		{Meta: &gtab.LookupMetaInfo{LookupType: 1}, Subtables: []gtab.Subtable{g}},
+	}
+	cb := hx(gtab.VerifSubtableEncode(ctx))
+	return real, fmt.Sprintf("%d/0/0/h:%s|h:%s;1/0/0/h:%s", tp, cb, cb, hx(gtab.VerifSubtableEncode(g)))
+}
+
+func init() {
+	// the reader accepts what Gpos4_1.encode wrote: nb base glyphs x nc classes, all anchors empty but one
+	ops["otl.gpos.rt41"] = func(f Fields) string {
+		return canonPanic(guard(func() string {
+			nb, nc := f.Int("nb"), f.Int("nc")
+			l := &gtab.Gpos4_1{MarkCov: coverage.Table{1: 0}, BaseCov: coverage.Table{}, MarkArray: []markarray.Record{{Class: uint16(nc - 1)}}}
+			for i := 0; i < nb; i++ {
+				l.BaseCov[glyph.ID(10+i)] = i
+				l.BaseArray = append(l.BaseArray, make([]anchor.Table, nc))
+			}
+			reflect.ValueOf(&l.BaseArray[nb-1][nc-1].X).Elem().SetInt(7)
+			if _, err := gtab.VerifReadGposSubtable(gtab.VerifSubtableEncode(l), 0, 4); err != nil {
+				return "fail:" + errKind(err)
+			}
+			return "ok"
+		}))
+	}
+	// |encode()| = encodeLen() on the real code; the line carries both numbers
+	ops["otl.ctx.len"] = func(f Fields) string {
+		return canonPanic(guard(func() string {
+			st := otlCtxFromFields(f)
+			if len(gtab.VerifSubtableEncode(st)) != f.Int("size") || gtab.VerifSubtableEncodeLen(st) != f.Int("declared") {
 				return "stale-case"
 			}
 			return "ok"
@@ -587,6 +641,12 @@ func areaOtl(c *Ctx) {
 		"0002000200050003000100040004" + "0002",
 		"0001fff0002000010002",
 		"0001ffff000100070000",
+		// end < start is refused (repair of DESIGN §9 #36); end == start is fine
+		"00020001000500030001",
+		"00020001000500050001",
+		"000200020001fffe0001ffff00000002",
+		"0002000200050003000000040004" + "0002",
+		"00020002000100020001000300020001",
 	} {
 		o := c.Case(Verdict, "otl.classdef.read", "data="+d, true)
 		c.Stat("classdef.crafted", outcomeClass(o))
@@ -632,7 +692,10 @@ func areaOtl(c *Ctx) {
 		otlGenFL(c, i)
 	}
 
+	otlGenCtxShapes(c)
+
 	// ---- lookup lists
+	otlLLSweep(c)
 	nLargeRead := 0
 	for i := 0; i < nLL/4; i++ {
 		ext := Pick(r, []int{7, 9})
@@ -2640,8 +2703,14 @@ func otlGenCtx(c *Ctx, i int) {
 	if !strings.HasPrefix(out, "ok:") {
 		return
 	}
-	b := gtab.VerifSubtableEncode(otlCtxFromFields(parseFields(args)))
+	ctxSt := otlCtxFromFields(parseFields(args))
+	b := gtab.VerifSubtableEncode(ctxSt)
 	c.Stat("ctx.bytes", bucket(len(b)))
+	c.Case(Direct, "otl.ctx.len", fmt.Sprintf("%s size=%d declared=%d", args, len(b), gtab.VerifSubtableEncodeLen(ctxSt)), true)
+	if len(b) <= 2500 {
+		real, line := otlRealLL(parseFields(args))
+		c.Case(Direct, "otl.ll.prop", fmt.Sprintf("ll=%s ext=7 data=%s %s", line, hx(gtab.VerifEncodeLookupList(real)), args), true)
+	}
 	if len(b) <= 30000 || what != "regular" {
 		o := c.Case(Verdict, "otl.gsub.read", fmt.Sprintf("type=%d data=%s", tp, hx(b)), true)
 		c.Stat("ctx.read-outcome", "encoded:"+outcomeClass(o))
@@ -2656,6 +2725,153 @@ func otlGenCtx(c *Ctx, i int) {
 			c.Stat("ctx.mutation", mw)
 			o := c.Case(Verdict, "otl.gsub.read", fmt.Sprintf("type=%d data=%s", t2, hx(m)), true)
 			c.Stat("ctx.read-outcome", "mutated:"+outcomeClass(o))
+		}
+	}
+}
+
+// otlGenCtxShapes: nil / empty-but-non-nil rule sets, rules without anything, empty coverage lists,
+// for all six context formats; each with the size predicate and inside a lookup list.
+func otlGenCtxShapes(c *Ctx) {
+	cd := otlRunsString([]otlRun{{20, 22, 1}, {30, 31, 2}}, true)
+	setShapes := []string{"e", "-", "e|e", "-|e", "e|-", "-|-", "e|//>0:1", "//>0:1|e", "//>", "//>|-|e", "1/2/3>1:2,//>|e"}
+	emit := func(st, args string) {
+		tp := 5
+		if st[0] == 'C' {
+			tp = 6
+		}
+		out := c.Case(Verdict, "otl.gsub.encode", args, true)
+		c.Stat("ctx.shape-outcome", st+":"+outcomeClass(out))
+		if !strings.HasPrefix(out, "ok:") {
+			return
+		}
+		f := parseFields(args)
+		x := otlCtxFromFields(f)
+		b := gtab.VerifSubtableEncode(x)
+		c.Case(Direct, "otl.ctx.len", fmt.Sprintf("%s size=%d declared=%d", args, len(b), gtab.VerifSubtableEncodeLen(x)), true)
+		if len(b) <= 2500 {
+			real, line := otlRealLL(f)
+			c.Case(Direct, "otl.ll.prop", fmt.Sprintf("ll=%s ext=7 data=%s %s", line, hx(gtab.VerifEncodeLookupList(real)), args), true)
+		}
+		c.Case(Verdict, "otl.gsub.read", fmt.Sprintf("type=%d data=%s", tp, hx(b)), true)
+	}
+	for _, sets := range setShapes {
+		n := strings.Count(sets, "|") + 1
+		cov := otlRunsString([]otlRun{{10, 10 + n - 1, 0}}, false)
+		unchained := strings.ReplaceAll(sets, "1/2/3>", "/2/>")
+		emit("c1", fmt.Sprintf("st=c1 cov=%s sets=%s", cov, unchained))
+		emit("C1", fmt.Sprintf("st=C1 cov=%s sets=%s", cov, sets))
+		for _, k := range []string{"empty", cd} {
+			emit("c2", fmt.Sprintf("st=c2 cov=%s cd=%s sets=%s", cov, k, unchained))
+			emit("C2", fmt.Sprintf("st=C2 cov=%s cb=%s ci=%s cl=%s sets=%s", cov, k, cd, k, sets))
+		}
+	}
+	// ChainedSeqContext1: one set of n rules of 16 bytes; the offset of the last rule inside the set is
+	// 18n-14 = 65524 (n = 3641) or 65542 (n = 3642: refused)
+	for _, n := range []int{3641, 3642} {
+		q := make([]string, n)
+		for k := range q {
+			q[k] = "9/1/>0:1"
+		}
+		emit("C1", fmt.Sprintf("st=C1 cov=10 sets=%s", strings.Join(q, ",")))
+	}
+	// no rule sets at all
+	emit("c1", "st=c1 cov= sets=")
+	emit("C1", "st=C1 cov= sets=")
+	emit("c2", "st=c2 cov= cd=empty sets=")
+	emit("C2", "st=C2 cov= cb=empty ci=empty cl=empty sets=")
+	for _, covs := range []string{"e", "e/e", "3-4/e", "e/3-4", "7"} {
+		for _, acts := range []string{"", "0:1"} {
+			emit("c3", fmt.Sprintf("st=c3 covs=%s acts=%s", covs, acts))
+			for _, bl := range [][2]string{{"", ""}, {"e", ""}, {"", "e"}, {"e", "e/e"}, {"5", "6"}} {
+				emit("C3", fmt.Sprintf("st=C3 back=%s input=%s look=%s acts=%s", bl[0], covs, bl[1], acts))
+			}
+		}
+	}
+}
+
+// otlLLSweep: k lookups that are replaced by extension records (with or without a mark filtering
+// set), one lookup that is kept, one tiny GSUB lookup and the biggest lookup, which is moved to the
+// end; the length of the kept lookup's blob is chosen so that the offset of the moved lookup - with
+// exactly the k lookups replaced - is R, for every R in 0xFFF0..0x10010.  (Above 0xFFFF the encoder
+// has to replace the kept lookup as well.)
+func otlLLSweep(c *Ctx) {
+	type cfg struct {
+		k   int
+		mfs bool
+	}
+	cfgs := []cfg{{1, true}, {2, true}, {3, true}, {1, false}, {2, false}, {3, false}}
+	if c.Tier != "thorough" {
+		// every quick run: all 33 offsets for one configuration with mark filtering sets
+		cfgs = cfgs[c.Rng.Intn(3):][:1]
+	}
+	for _, cf := range cfgs {
+		for R := 0xFFF0; R <= 0x10010; R++ {
+			n := cf.k + 3
+			before := 2 + 2*n
+			var ls []string
+			for i := 1; i <= cf.k; i++ {
+				ns := i // number of subtables of the i-th replaced lookup
+				fl, hdr := 0, 6+2*ns
+				if cf.mfs {
+					fl, hdr = 16, 8+2*ns
+				}
+				before += hdr + 8*ns
+				// payload: decreasing with i, always above the kept lookup (about 65 KiB)
+				pay := 69000 - 700*i
+				subs := make([]string, ns)
+				for j := range subs {
+					subs[j] = fmt.Sprintf("n:%d:%d", pay/ns+j, (7*i+j)%251)
+				}
+				ls = append(ls, fmt.Sprintf("%d/%d/%d/%s", 1+i%4, fl, i, strings.Join(subs, "|")))
+			}
+			sfl, shdr := 0, 8
+			if R%2 == 1 {
+				sfl, shdr = 16, 10 // the kept lookup with a mark filtering set on odd offsets
+			}
+			before += 20 // the GSUB 1.1 lookup: 8 + 12
+			v := R - before - shdr
+			kept := fmt.Sprintf("2/%d/2/n:%d:%d", sfl, v, R%251)
+			tiny := "1/0/0/g:5:3"
+			big := fmt.Sprintf("4/%d/1/n:%d:9", map[bool]int{true: 16, false: 0}[cf.mfs], 75000)
+			// original order: vary where the biggest and the kept lookup stand
+			var all []string
+			switch R % 3 {
+			case 0:
+				all = append(append(append([]string{}, ls...), kept, tiny), big)
+			case 1:
+				all = append(append([]string{big, tiny}, ls...), kept)
+			default:
+				all = append(append([]string{kept}, ls...), big, tiny)
+			}
+			line := strings.Join(all, ";")
+			out := c.Case(Verdict, "otl.ll.encode", "ll="+line, true)
+			what := outcomeClass(out)
+			if strings.HasPrefix(out, "ok:") {
+				ll, _ := otlParseLL(line)
+				b := gtab.VerifEncodeLookupList(ll)
+				// where did the biggest lookup go?
+				bi := 0
+				for i, q := range all {
+					if q == big {
+						bi = i
+					}
+				}
+				off := int(b[2+2*bi])<<8 | int(b[3+2*bi])
+				switch {
+				case off == R:
+					what = "ok:offset=R"
+				case R > 0xFFFF && off < R:
+					what = "ok:more-replaced"
+				default:
+					what = fmt.Sprintf("ok:UNEXPECTED-offset-%d-for-R-%d", off, R)
+				}
+				c.Case(Direct, "otl.ll.prop", fmt.Sprintf("ll=%s ext=7 sum=%s", line, otlShowBytes(b)), true)
+			}
+			side := "R<=0xFFFF"
+			if R > 0xFFFF {
+				side = "R>0xFFFF"
+			}
+			c.Stat("ll.sweep", fmt.Sprintf("k=%d,mfs=%v,%s:%s", cf.k, cf.mfs, side, what))
 		}
 	}
 }
